@@ -57,6 +57,7 @@ REQUIRED_COVER = [
     "oracle_satisfiable_by_stable_reference",
     "numpy_route",
     "numpy_leaf_shared_by_two_entries",
+    "float64_after_lower_precision_call",
 ]
 ASSUMPTIONS = [
     "round-off reading of 'within the declared bounds': a bound b may be exceeded by at most 4 ulp(b) of the working "
@@ -921,6 +922,22 @@ def check_numpy(desc):
                 out["cover"].append("numpy_leaf_shared_by_two_entries")
         except Exception as e:
             out["refusals"].append(f"numpy_input:param:{type(e).__name__}")
+    # the same instance called in a lower precision first: its float64 behaviour afterwards must be that of a fresh instance
+    try:
+        fresh64 = np.asarray(build(desc).forward(jnp.asarray(pts, dtype=jnp.float64)))
+        t2 = build(desc)
+        for low in (jnp.float32, jnp.float16):
+            t2.forward(jnp.asarray(pts, dtype=low))
+            t2.inverse(t2.forward(jnp.asarray(pts, dtype=low)))
+        after64 = np.asarray(t2.forward(jnp.asarray(pts, dtype=jnp.float64)))
+        out["evals"] += 1
+        out["cover"].append("float64_after_lower_precision_call")
+        if after64.dtype != fresh64.dtype or not np.array_equal(after64, fresh64, equal_nan=True):
+            bad = int(np.argmax(~((after64 == fresh64) | (np.isnan(after64) & np.isnan(fresh64)))))
+            viol("instance_changed_by_lower_precision_call", "forward",
+                 f"forward({pts[bad]!r}) in float64 is {after64[bad]!r} after a float32/float16 call on the same instance, {fresh64[bad]!r} on a fresh instance")
+    except Exception as e:
+        out["refusals"].append(f"low_precision:{desc['kind']}:{type(e).__name__}")
     out["digests"].append(digest(["numpy_route", desc]))
     return out
 
